@@ -103,6 +103,9 @@ Special ==
        Prog("x-emptynested", << Loop(N, I, << Loop(K(2), J, << Empty, Upd(A, 1) >>), Upd(Bv, 2) >>) >>, <<"emptyinloop">>),
        Prog("x-blockinloop", << Loop(N, I, << Block(<< Upd(A, 1) >>), Decl(S32, "t", None), Upd(Bv, 2) >>) >>, <<"blockinloop">>),
        Prog("x-ifinloopelse", << IfElse(Conds[1], << Upd(A, 1) >>, << Loop(N, I, << Upd(A, 2) >>), Upd(Bv, 3) >>) >>, <<"loopinelse">>),
+       Prog("x-stepassign", << For(Set(I, K(0)), Bin("<", I, N), Assign(I, "=", Bin("+", I, K(1))), << Upd(A, 1) >>), Upd(Bv, 2) >>, <<"stepassign">>),
+       Prog("x-stepcompound", << For(Set(I, K(0)), Bin("<", I, Bin("+", N, K(3))), Assign(I, "+=", K(2)), << Upd(A, 1), Upd(Bv, 2) >>) >>, <<"stepassign">>),
+       Prog("x-stepdown", << For(Set(I, CastE(S32, N)), Bin(">", I, K(0)), Assign(I, "-=", K(1)), << Upd(A, 1) >>) >>, <<"stepassign">>),
        Prog("x-loopstore", << Loop(N, I, << Store(FALSE, 8, Bin("+", EA, I), CastE(U8, Bin("+", A, CastE(S32, I)))) >>), Set(Bv, Load(TRUE, 32, EA)) >>, <<"loopstore">>) >>
 
 \* conditions that are VALUES (not comparisons): the branch / loop must test the value C computes, after every narrowing
